@@ -7,6 +7,7 @@ pub const F_SANS: u32 = 1;
 pub const F_RENDER: u32 = 2;
 pub const F_UNIVERSE: u32 = 4;
 pub const F_REFEN: u32 = 8;
+pub const F_MINIUNI: u32 = 16;
 
 fn bbhex(b: BitBoard) -> String { format!("{:016x}", b.bits()) }
 const TYPES: [PieceType; 6] = [PieceType::Pawn, PieceType::Knight, PieceType::Bishop, PieceType::Rook, PieceType::Queen, PieceType::King];
@@ -181,6 +182,28 @@ pub fn board_fields(b: &ChessBoard, flags: u32, uni: Option<&[BoardMove]>) -> St
         f.push(format!("rs={}", hex(&strip_ansi(&b.render_straight()))));
         f.push(format!("rf={}", hex(&strip_ansi(&b.render_flipped()))));
         f.push(format!("disp={}", if format!("{}", b) == b.render_straight() { "ok" } else { "differs" }));
+    }
+    if flags & F_MINIUNI != 0 {
+        // C03 on the natural sub-universe: every own piece (with its true type) to every square, without promotion and
+        // with promotion to queen / knight, plus both castlings; the accepted set must be the legal-move list
+        let mut acc: Vec<String> = vec![];
+        let mut bad = 0;
+        let own = b.get_color_mask(b.get_side_to_move());
+        for s in own {
+            let t = match b.get_piece_type_on(s) { Some(t) => t, None => continue };
+            for dd in 0..64u8 {
+                for pr in [None, Some(PieceType::Queen), Some(PieceType::Knight)] {
+                    let m = BoardMove::MovePiece(PieceMove::new(t, s, sq(dd), pr).unwrap());
+                    match quiet(|| b.is_legal_move(&m)) { Ok(true) => acc.push(mv_text(&m)), Ok(false) => {}, Err(_) => bad += 1 }
+                }
+            }
+        }
+        for m in [BoardMove::CastleKingSide, BoardMove::CastleQueenSide] {
+            match quiet(|| b.is_legal_move(&m)) { Ok(true) => acc.push(mv_text(&m)), Ok(false) => {}, Err(_) => bad += 1 }
+        }
+        acc.sort();
+        f.push(format!("muni={}", acc.join(",")));
+        f.push(format!("munibad={}", bad));
     }
     if flags & F_UNIVERSE != 0 {
         let (set, bad, fb) = universe_obs(b, uni.unwrap());
